@@ -12,7 +12,7 @@ try:
     info = coord.PROPS[prop]
     b = coord.build(info["engine"], tmp, inject=info.get("inject"))
     traces = []
-    for rep, gmp in enumerate(["1", "16", "4", "1"]):
+    for rep, gmp in enumerate((["1", "16", "4", "1"] * int(os.environ.get("DETDIFF_REPS", "1")))):
         td = os.path.join(tmp, "tr%d" % rep)
         os.makedirs(td, exist_ok=True)
         env = coord.env_base()
@@ -21,8 +21,14 @@ try:
         subprocess.run([b, "-test.run", "^TestWorker$", "-test.timeout", "0"], env=env, stdout=subprocess.DEVNULL, stderr=subprocess.DEVNULL, cwd=tmp)
         print(rep, gmp, json.load(open(os.path.join(tmp, "o%d.json" % rep))).get("run_hashes"))
         traces.append(open(os.path.join(td, "run-%d.txt" % run)).read().splitlines())
+    shown = 0
     for i in range(1, len(traces)):
         d = list(difflib.unified_diff(traces[0], traces[i], lineterm="", n=3))
+        if not d and len(traces) > 4:
+            continue
+        shown += 1
+        if shown > 2:
+            break
         print("--- execution 0 vs %d: %d diff lines" % (i, len(d)))
         for l in d[:40]:
             print(l[:200])
